@@ -64,6 +64,15 @@ type Spec struct {
 	DurMS     int         `json:"dur_ms"`
 	Fail      string      `json:"fail,omitempty"` // "" | exit | omit | slow
 	NoCmd     bool        `json:"no_cmd,omitempty"`
+	// NonHermetic: the command's output also depends on the undeclared external value
+	// Ext["epoch"] (a timestamp, a network resource): re-executing it under the SAME cache key
+	// after the epoch ticked produces different bytes. Only targets nothing depends on.
+	NonHermetic bool `json:"non_hermetic,omitempty"`
+	// TrapTerm: the command's shell traps SIGTERM/SIGINT and carries on; only SIGKILL stops it.
+	TrapTerm bool `json:"trap_term,omitempty"`
+	// InPlace: the command rewrites existing file outputs in place (`gen > out`: truncate and
+	// write through the existing inode) instead of removing them first (`rm -f out; gen > out`).
+	InPlace bool `json:"in_place,omitempty"`
 	// Establish: executing the command establishes the external conditions its checks test.
 	Establish bool `json:"establish,omitempty"`
 	// Breaks: executing the command leaves the checked conditions in a state the checks reject.
@@ -331,6 +340,9 @@ func RunDigest(s *Spec, v *CommandView) string {
 	for _, k := range s.FP {
 		parts = append(parts, "fp", k, v.Ext[k])
 	}
+	if s.NonHermetic {
+		parts = append(parts, "epoch", v.Ext["epoch"])
+	}
 	for _, name := range sortedKeys(v.Inputs) {
 		c := v.Inputs[name]
 		switch {
@@ -447,6 +459,14 @@ func (e *Eval) Clean(l string) Listing {
 	out := OutputListing(s, RunDigest(s, v), v)
 	e.clean[l] = out
 	return out
+}
+
+// CleanAt is Clean with the external epoch set to `epoch` (non-hermetic targets: what the
+// command produced when it ran at that epoch).
+func (e *Eval) CleanAt(l, epoch string) Listing {
+	u2 := e.U.Clone()
+	u2.Ext["epoch"] = epoch
+	return NewEval(u2, e.Platform).Clean(l)
 }
 
 // keys: strict omits output-less dependencies (their state is not part of the dependant's
